@@ -37,7 +37,7 @@ func init() {
 		Batches:     func(tier string) int { return 16 },
 		Parallel:    func(tier string) int { return 8 },
 		Require: func(tier string) map[string]int64 {
-			return map[string]int64{"scenarios": 600, "directed_runs": 200, "directed_achieved": 40, "quiescent_checks": 600, "closed_checks": 60, "shared_session_scenarios": 60, "store_faults": 40, "panics_injected": 20, "panicking_write_callbacks": 10, "failing_calls": 40,
+			return map[string]int64{"scenarios": 600, "directed_runs": 200, "directed_achieved": 40, "quiescent_checks": 600, "closed_checks": 60, "shared_session_scenarios": 60, "store_faults": 40, "panics_injected": 20, "panicking_write_callbacks": 10, "failing_calls": 40, "stale_aborts": 20, "stream_polls": 60, "stream_churns": 10,
 				"cancelled_contexts": 60, "hook_events": 20000, "interleavings_recorded": 300}
 		},
 		WorkerTimeoutSec: func(tier string) int {
@@ -77,7 +77,7 @@ var c16Steps = []string{
 	"begin", "commit", "abort",
 	"sess.start", "sess.write", "sess.commit", "sess.abort", "sess.end", "sess.drop", "sess.index",
 	"with_txn_ok", "with_txn_err", "with_txn_panic",
-	"watch", "next", "stream.close",
+	"watch", "next", "poll", "stream.churn", "stream.close", "abort_stale",
 	"store.fail", "store.panic", "close",
 }
 
@@ -91,6 +91,34 @@ type c16Scenario struct {
 func c16Gen(r *fw.Rand) c16Scenario {
 	n := r.Range(2, 4)
 	s := c16Scenario{}
+	if r.Chance(1, 8) {
+		// shutdown against busy streams: pollers, churners (open/close in a
+		// loop) and a writer while one actor closes the engine
+		for a := 0; a < 4; a++ {
+			var steps []string
+			switch {
+			case a == 0:
+				steps = []string{"write", fw.Pick(r, []string{"write", "read", "watch"}), "close"}
+			case a == 1 && r.Bool():
+				steps = []string{"stream.churn", "stream.churn", "stream.churn"}
+			default:
+				steps = []string{"watch", "poll", "poll", "poll", fw.Pick(r, []string{"stream.close", "poll", "next"})}
+			}
+			s.Actors = append(s.Actors, steps)
+			s.Session = append(s.Session, a)
+		}
+		return s
+	}
+	if r.Chance(1, 8) {
+		// late Aborts of finished transactions while other actors write
+		s.Actors = [][]string{
+			{"begin", fw.Pick(r, []string{"commit", "abort"}), "abort_stale", "read", "abort_stale", "write", "abort_stale"},
+			{"begin", "read", "read", "commit", "begin", "read", fw.Pick(r, []string{"commit", "abort"})},
+			{"write", "write", fw.Pick(r, []string{"write", "sess.start", "with_txn_ok"}), "write"},
+		}
+		s.Session = []int{0, 1, 2}
+		return s
+	}
 	shared := r.Chance(1, 3)
 	for a := 0; a < n; a++ {
 		k := r.Range(2, 6)
@@ -102,9 +130,9 @@ func c16Gen(r *fw.Rand) c16Scenario {
 			case 0: // session heavy
 				st = fw.Pick(r, []string{"sess.start", "sess.write", "sess.commit", "sess.abort", "sess.end", "sess.drop", "sess.index", "sess.start", "sess.commit", "write"})
 			case 1: // raw engine
-				st = fw.Pick(r, []string{"begin", "commit", "abort", "begin", "write", "write_cancelled", "write_deadline", "write_panicking", "write_failing", "ddl_failing", "store.fail", "store.panic"})
+				st = fw.Pick(r, []string{"begin", "commit", "abort", "abort_stale", "begin", "commit", "write", "write_cancelled", "write_deadline", "write_panicking", "write_failing", "ddl_failing", "store.fail", "store.panic"})
 			case 2: // streams and close
-				st = fw.Pick(r, []string{"watch", "next", "stream.close", "write", "close", "read", "with_txn_ok"})
+				st = fw.Pick(r, []string{"watch", "next", "poll", "stream.churn", "stream.close", "write", "close", "read", "with_txn_ok"})
 			default:
 				st = fw.Pick(r, c16Steps)
 			}
@@ -254,6 +282,7 @@ type c16Actor struct {
 	done    atomic.Bool
 	cur     atomic.Value // current step (string)
 	txn     *lungo.Transaction
+	stale   *lungo.Transaction // a transaction this actor has already committed or aborted
 	stream  lungo.IChangeStream
 	log     []string
 	holding atomic.Bool // owns an engine-level transaction right now
@@ -654,6 +683,7 @@ func c16Step(c *fw.Ctx, a *c16Actor, st string, client lungo.IClient, engine *lu
 		}
 		t := a.txn
 		a.txn = nil
+		a.stale = t
 		func() {
 			defer a.holding.Store(false)
 			defer func() {
@@ -677,6 +707,7 @@ func c16Step(c *fw.Ctx, a *c16Actor, st string, client lungo.IClient, engine *lu
 			return
 		}
 		engine.Abort(a.txn)
+		a.stale = a.txn
 		a.txn = nil
 		a.holding.Store(false)
 		note("ok")
@@ -758,6 +789,40 @@ func c16Step(c *fw.Ctx, a *c16Actor, st string, client lungo.IClient, engine *lu
 		ok := a.stream.Next(nctx)
 		cancel()
 		note("next=%v err=%v", ok, a.stream.Err())
+	case "abort_stale":
+		// a late Abort of a transaction that is already finished ("Abort should
+		// be called after finishing any transaction"): it must not touch the
+		// transaction and the slot of whoever is writing now
+		if a.stale == nil {
+			return
+		}
+		c.Count("stale_aborts", 1)
+		engine.Abort(a.stale)
+		note("ok")
+	case "poll":
+		if a.stream == nil {
+			return
+		}
+		for i := 0; i < 120; i++ {
+			a.stream.TryNext(ctx)
+			a.stream.ResumeToken()
+			if a.stream.Err() != nil {
+				break
+			}
+		}
+		c.Count("stream_polls", 1)
+		note("err=%v", a.stream.Err())
+	case "stream.churn":
+		for i := 0; i < 25; i++ {
+			s, err := coll.Watch(ctx, bson.A{})
+			if err != nil {
+				note("err=%v", err)
+				break
+			}
+			s.TryNext(ctx)
+			s.Close(ctx)
+		}
+		c.Count("stream_churns", 1)
 	case "stream.close":
 		if a.stream == nil {
 			return
